@@ -408,6 +408,53 @@ def ob_beam_mass(dim, timo, et, inclined):
     return Verdict(DISCHARGED, backend="native beam simulation", detail=f"translational mass {want:.4f}, min eig {w.min():.2e}", sub=n + 2)
 
 
+def ob_mixed_mass(quad):
+    """a plane mesh that mixes two element types of the main dimension (gmsh recombination leaves triangles next to quadrangles), thickness t != 1, Elastic and Thermal:
+    K(t) == t K(1), M(t) == t M(1) (C(t) == t C(1)), translational mass == rho x area x t per direction, M positive definite, K r == 0 for the rigid motions / the constants"""
+    import contextlib, io
+    from EasyFEA import Models, Simulations, ElemType
+    from EasyFEA.Geoms import Points
+    with contextlib.redirect_stdout(io.StringIO()):
+        mesh = Points([(0, 0), (1, 0), (0.2, 0.9)], 0.21).Mesh_2D([], ElemType[quad])          # a triangle cannot be tiled by the recombination: a few triangles remain
+    groups = mesh.Get_list_groupElem(2)
+    if len(groups) < 2:
+        raise Unsupported("the mesher did not produce a mixed mesh")
+    th, rho = 0.35, 1.9
+    area = float(mesh.area)
+    n = 0
+
+    def mats(phys, t):
+        if phys == "elastic":
+            sm = Simulations.Elastic(mesh, Models.Elastic.Isotropic(2, E=3.0, v=0.25, planeStress=True, thickness=t))
+        else:
+            sm = Simulations.Thermal(mesh, Models.Thermal(k=1.5, c=0.7, thickness=t))
+        sm.rho = rho
+        K, C, M, _ = sm.Get_K_C_M_F()
+        return K.toarray(), (M if phys == "elastic" else C).toarray()
+    for phys in ("elastic", "thermal"):
+        K1, M1 = mats(phys, 1.0)
+        Kt, Mt = mats(phys, th)
+        for nm, A1, At in (("K", K1, Kt), ("M" if phys == "elastic" else "C", M1, Mt)):
+            e = float(np.abs(At - th * A1).max() / np.abs(th * A1).max())
+            n += 1
+            if e > 1e-12:
+                raise Refuted(f"{phys} simulation on a mixed {'+'.join(g.elemType for g in groups)} mesh: {nm}(thickness {th}) differs from {th} x {nm}(thickness 1) by {e:.3e} (relative)",
+                              cex=dict(elemTypes=[str(g.elemType) for g in groups], thickness=th, physics=phys, matrix=nm), signature=f"mixed:{phys}:{nm}:thickness", replay=dict(confirmed=True, rel_err=e))
+        dof_n = 2 if phys == "elastic" else 1
+        want = rho * area * th * (1.0 if phys == "elastic" else 0.7)
+        for d in range(dof_n):
+            t_ = np.zeros(Mt.shape[0])
+            t_[d::dof_n] = 1
+            got = float(t_ @ Mt @ t_)
+            n += 1
+            if abs(got - want) > 1e-10 * want:
+                raise Refuted(f"{phys} simulation on a mixed {'+'.join(g.elemType for g in groups)} mesh, thickness {th}: the entries of the mass / capacity matrix sum to {got:.8g} along direction {d}, "
+                              f"rho (c) x area x thickness = {want:.8g}", cex=dict(thickness=th, physics=phys), signature=f"mixed:{phys}:mass", replay=dict(confirmed=True, got=got, want=want))
+        if np.linalg.eigvalsh(Mt).min() <= 0:
+            raise Refuted(f"{phys} mass / capacity matrix of the mixed mesh is not positive definite", signature=f"mixed:{phys}:spd", replay=dict(confirmed=True))
+    return Verdict(DISCHARGED, backend="native", sub=n)
+
+
 def ob_large(n):
     """a mesh large enough for Ndof^2 to exceed 2^31 (index arithmetic of the scatter map): K and M of a 2-D elastic problem are symmetric, K r == 0 for the three rigid motions,
     no zero diagonal entry, t^T M t == rho x area x thickness per direction"""
@@ -515,6 +562,10 @@ def build(tier, seed):
                     obs.append(Ob(f"C02.beam.mass.{dim}d.{'timoshenko' if timo else 'bernoulli'}.{et}{'.inclined' if inclined else ''}", ob_beam_mass, (dim, timo, et, inclined), "X",
                                   ("EasyFEA/FEM/Operators/Bilinear.py::BeamMass", "EasyFEA/Models/Beam/_beam.py::BeamStructure.Calc_M_e_pg"), bound="one 3-element beam",
                                   clause="beam mass matrix symmetric, positive semi-definite, translational mass == rho A L per direction", timeout=300))
+    for quad in ("QUAD4", "QUAD8"):
+        obs.append(Ob(f"C02.simu.mixed.{quad}", ob_mixed_mass, (quad,), "X", ("EasyFEA/Simulations/_elastic.py::Elastic.Construct_local_matrix_system", "EasyFEA/Simulations/_thermal.py::Thermal.Construct_local_matrix_system"),
+                      bound="one gmsh mesh mixing triangles and quadrangles, one thickness", timeout=300,
+                      clause="on a mesh with two element groups of the main dimension the thickness multiplies K and M (C) of every group once; the mass sums to rho x area x thickness"))
     obs.append(Ob("C02.simu.large.elastic", ob_large, (220,), "X", ("EasyFEA/Simulations/_simu.py::_Simu.__Get_csr_map", "EasyFEA/FEM/_group_elem.py::_GroupElem._Get_assembly_e"), bound="one structured TRI3 mesh with more than 46340 dofs",
                   clause="K, M symmetric with positive diagonal, K r == 0 for the rigid motions, translational mass == rho x area x thickness when Ndof^2 exceeds 2^31", timeout=900))
     obs.append(Ob("C02.cache.transparent", C14.ob_cache_key, (), "B", ("EasyFEA/Utilities/_cache.py::cache_computed_values",),
